@@ -43,13 +43,18 @@ inductive GChar (α : Type)
   | extra (c : String)
   deriving DecidableEq, Repr
 
-/-- A GNFA label: `None`, or a string together with the answer of `re._validate` on it
-(the regex validator is the subject of C11; here it is an oracle: `ok b`, or the exception
-class it lets escape). -/
+/-- What `re._validate` does with a label (the regex validator is the subject of C11; here
+it is an oracle): accepts it, rejects it (`InvalidRegexError` caught → `False`), or lets a
+`LexerError` escape. -/
+inductive RegexVerdict
+  | valid | invalid | lexerError
+  deriving DecidableEq, Repr
+
+/-- A GNFA label: `None`, or a string together with the verdict of `re._validate` on it. -/
 structure GLabel (α : Type) where
   chars : List (GChar α)
-  valid : Res Bool
-  deriving Repr
+  verdict : RegexVerdict
+  deriving DecidableEq, Repr
 
 structure GNFA (σ α : Type) where
   states : List σ
@@ -73,10 +78,10 @@ def validateLabel (g : GNFA σ α) : Option (GLabel α) → Res Unit
   | none => .ok ()
   | some l =>
     if (!(l.chars.all g.charOk)) && !l.chars.isEmpty then .error (.lib .invalidRegexError)
-    else match l.valid with
-      | .ok true => .ok ()
-      | .ok false => .error (.lib .invalidRegexError)
-      | .error e => .error e
+    else match l.verdict with
+      | .valid => .ok ()
+      | .invalid => .error (.lib .invalidRegexError)
+      | .lexerError => .error (.lib .lexerError)
 
 /-- `self.states - paths.keys() - {self.initial_state} != set()` negated. -/
 def rowComplete (g : GNFA σ α) (paths : List (σ × Option (GLabel α))) : Bool :=
